@@ -3645,6 +3645,225 @@ fn subr_search(cw: &mut CaseWriter, st: &mut Stats) {
     st.add("subrs.too_large_for_model", big);
 }
 
+// ------------------------------------------------------------------------------------------------
+// (g) cmap format 4 iteration over overlapping / unsorted segment arrays; layout collect_features budgets
+// ------------------------------------------------------------------------------------------------
+/// a cmap format 4 subtable from segments (start, end, delta, range_offset) and a glyph id array
+fn cmap4_bytes(segs: &[(u16, u16, u16, u16)], gids: &[u16]) -> Vec<u8> {
+    let n = segs.len() as u16;
+    let mut v = vec![];
+    v.extend(be16(4));
+    v.extend(be16(16 + 8 * n + 2 * gids.len() as u16));
+    v.extend(be16(0));
+    v.extend(be16(n * 2));
+    v.extend([0u8; 6]);
+    for s in segs {
+        v.extend(be16(s.1));
+    }
+    v.extend(be16(0));
+    for s in segs {
+        v.extend(be16(s.0));
+    }
+    for s in segs {
+        v.extend(be16(s.2));
+    }
+    for s in segs {
+        v.extend(be16(s.3));
+    }
+    for g in gids {
+        v.extend(be16(*g));
+    }
+    v
+}
+fn cmap4_run(bytes: &[u8], take: usize) -> Option<(Vec<u64>, Vec<(u32, u32)>)> {
+    use read_fonts::tables::cmap::Cmap4;
+    let t = Cmap4::read(FontData::new(bytes)).ok()?;
+    let n = t.start_code().len().min(t.end_code().len()).min(t.id_delta().len()).min(t.id_range_offsets().len());
+    let mut a: Vec<u64> = vec![take as u64, n as u64];
+    a.extend(t.start_code().iter().take(n).map(|v| v.get() as u64));
+    a.extend(t.end_code().iter().take(n).map(|v| v.get() as u64));
+    a.extend(t.id_delta().iter().take(n).map(|v| v.get() as u16 as u64));
+    a.extend(t.id_range_offsets().iter().take(n).map(|v| v.get() as u64));
+    a.extend(t.glyph_id_array().iter().map(|v| v.get() as u64));
+    let pairs: Vec<(u32, u32)> = t.iter().take(take).map(|(c, g)| (c, g.to_u32())).collect();
+    Some((a, pairs))
+}
+fn cmap4_families(rng: &mut Rng, n: usize) -> Vec<(String, Vec<u8>)> {
+    let mut out = vec![];
+    for i in 0..n {
+        let k = 1 + rng.below(6) as usize;
+        let hi = *rng.pick(&[30u16, 60, 200]);
+        let mut prev_end = 0u16;
+        let segs: Vec<(u16, u16, u16, u16)> = (0..k)
+            .map(|_| {
+                let s = match rng.below(6) {
+                    0 => 0,
+                    1 => prev_end.saturating_sub(rng.below(8) as u16),
+                    2 => rng.below(hi as u64) as u16,
+                    _ => prev_end.saturating_add(rng.below(6) as u16),
+                };
+                let e = match rng.below(7) {
+                    0 => 0,
+                    1 => s.saturating_sub(1 + rng.below(5) as u16),
+                    2 => hi,
+                    _ => s.saturating_add(rng.below(12) as u16),
+                };
+                prev_end = e;
+                let ro = if rng.chance(1, 3) { 2 * rng.below(8) as u16 } else { 0 };
+                (s, e, rng.below(5) as u16 * if rng.chance(1, 5) { 0x3FFF } else { 1 }, ro)
+            })
+            .collect();
+        let gids: Vec<u16> = (0..rng.below(12)).map(|_| rng.below(4) as u16 * 7).collect();
+        out.push((format!("cmap4:rand:{}", i), cmap4_bytes(&segs, &gids)));
+    }
+    // the issue-1100 family: huge ranges alternating with tiny ones, ends near 0xFFFF
+    for k in [2usize, 3, 8, 40] {
+        for (a, b) in [((0u16, 0xFFFEu16), (0u16, 0u16)), ((0, 0xFFFF), (0, 0xFFFF)), ((0xFFF0, 0xFFFF), (0, 5)), ((10, 5), (0, 0xFFFE))] {
+            let segs: Vec<(u16, u16, u16, u16)> = (0..k).map(|j| if j % 2 == 0 { (a.0, a.1, 1, 0) } else { (b.0, b.1, 1, 0) }).collect();
+            out.push((format!("cmap4:alternating:{}:{:?}:{:?}", k, a, b), cmap4_bytes(&segs, &[])));
+        }
+    }
+    out
+}
+fn cmap4_stage(rng: &mut Rng, cw: &mut CaseWriter, st: &mut Stats, thorough: bool) {
+    for (name, bytes) in cmap4_families(rng, if thorough { 2000 } else { 500 }) {
+        st.evaluations += 1;
+        st.count("cmap4.cases");
+        let b2 = bytes.clone();
+        let small = name.starts_with("cmap4:rand");
+        // oracle (implementation only): code points strictly ascending, at most 65536 pairs whatever the segment array
+        let r = catch(move || cmap4_run(&b2, if small { 400 } else { 70_000 }));
+        match r {
+            Err(m) => st.oracle_failure(json!({"key": format!("{}:{}", name, m.chars().take(60).collect::<String>()), "panic": m, "at": last_loc()})),
+            Ok(None) => st.count("cmap4.read_err"),
+            Ok(Some((a, pairs))) => {
+                if pairs.len() > 65536 {
+                    st.oracle_failure(json!({"key": format!("{}:more-than-65536-pairs", name), "pairs": pairs.len()}));
+                }
+                if pairs.windows(2).any(|w| w[0].0 >= w[1].0) {
+                    st.oracle_failure(json!({"key": format!("{}:code-points-not-ascending", name), "pairs": pairs.len()}));
+                }
+                if small {
+                    st.count("corr.op30");
+                    st.nontrivial(&name);
+                    let mut res = vec![(pairs.len() < 400) as i128, pairs.len() as i128];
+                    for (c, g) in pairs {
+                        res.push(c as i128);
+                        res.push(g as i128);
+                    }
+                    cw.push(format!("(30, [], {}, {})", czlist(a.iter().map(|v| *v as i128)), czlist(res)));
+                }
+            }
+        }
+    }
+}
+
+/// GSUB/GPOS with one script whose LangSys tables carry the given feature-index counts (the largest one last)
+fn layout_with_langsys(counts: &[u16], required: u16) -> Vec<u8> {
+    let mut script = vec![];
+    let k = counts.len();
+    let hdr = 4 + 6 * (k - 1);
+    let mut offs = vec![];
+    let mut pos = hdr;
+    for c in counts {
+        offs.push(pos as u16);
+        pos += 6 + 2 * *c as usize;
+    }
+    script.extend(be16(offs[0]));
+    script.extend(be16(k as u16 - 1));
+    for (i, o) in offs.iter().enumerate().skip(1) {
+        script.extend([b'L', b'A', b'0' + (i as u8 % 10), b' ']);
+        script.extend(be16(*o));
+    }
+    for c in counts {
+        script.extend(be16(0));
+        script.extend(be16(required));
+        script.extend(be16(*c));
+        for j in 0..*c {
+            script.extend(be16(j % 3));
+        }
+    }
+    let mut sl = vec![];
+    sl.extend(be16(1));
+    sl.extend(b"latn");
+    sl.extend(be16(8));
+    sl.extend(script);
+    let mut fl = vec![];
+    fl.extend(be16(2));
+    fl.extend(b"kern");
+    fl.extend(be16(14));
+    fl.extend(b"liga");
+    fl.extend(be16(18));
+    fl.extend([0u8; 8]);
+    let ll = be16(0).to_vec();
+    // put the (possibly > 64 KiB) script list last
+    let mut t = vec![0u8, 1, 0, 0];
+    t.extend(be16(10 + fl.len() as u16 + ll.len() as u16));
+    t.extend(be16(10));
+    t.extend(be16(10 + fl.len() as u16));
+    t.extend(fl);
+    t.extend(ll);
+    t.extend(sl);
+    t
+}
+fn collect_features_stage(st: &mut Stats) {
+    use read_fonts::collections::IntSet;
+    use read_fonts::tables::{gpos::Gpos, gsub::Gsub};
+    let interesting: [u16; 10] = [0, 1, 499, 1000, 1499, 1500, 1501, 2000, 16000, 0];
+    let big: [u16; 6] = [0, 1501, 32768, 64035, 65000, 65535];
+    let mut cases: Vec<(String, Vec<u16>)> = vec![];
+    for a in interesting {
+        for b in interesting {
+            for c in big {
+                cases.push((format!("features:{}+{}+{}", a, b, c), vec![a, b, c]));
+            }
+        }
+    }
+    for c in big {
+        cases.push((format!("features:{}", c), vec![c]));
+    }
+    let tagset = |tags: &[&[u8; 4]]| -> IntSet<Tag> { tags.iter().map(|t| Tag::new(t)).collect() };
+    let mut seen = std::collections::BTreeSet::new();
+    for (name, counts) in cases {
+        for required in [0xFFFFu16, 0, 1] {
+            if required != 0xFFFF && counts.len() == 3 && counts[0] % 7 != 3 && counts[2] != 65535 {
+                continue;
+            }
+            let bytes = layout_with_langsys(&counts, required);
+            st.evaluations += 1;
+            st.count("features.cases");
+            let r = catch(move || {
+                let mut h = 0u64;
+                let scripts: [IntSet<Tag>; 3] = [tagset(&[b"latn"]), IntSet::all(), tagset(&[b"zzzz"])];
+                let langs: [IntSet<Tag>; 4] = [IntSet::empty(), IntSet::all(), tagset(&[b"LA1 ", b"LA2 "]), tagset(&[b"LA2 "])];
+                let feats: [IntSet<Tag>; 4] = [IntSet::empty(), IntSet::all(), tagset(&[b"liga"]), tagset(&[b"kern", b"liga", b"zzzz"])];
+                let gsub = Gsub::read(FontData::new(&bytes));
+                let gpos = Gpos::read(FontData::new(&bytes));
+                for s in &scripts {
+                    for l in &langs {
+                        for f in &feats {
+                            if let Ok(g) = &gsub {
+                                h = h.wrapping_mul(31).wrapping_add(g.collect_features(s, l, f).map(|o| o.len()).unwrap_or(9999) as u64);
+                            }
+                            if let Ok(g) = &gpos {
+                                h = h.wrapping_mul(31).wrapping_add(g.collect_features(s, l, f).map(|o| o.len()).unwrap_or(9999) as u64);
+                            }
+                        }
+                    }
+                }
+                h
+            });
+            if let Err(m) = r {
+                st.count("features.failures");
+                let m60: String = m.chars().take(60).collect();
+                if seen.insert((last_loc(), m60.clone())) {
+                    st.oracle_failure(json!({"key": format!("{}:req{}:{}", name, required, m60), "panic": m, "at": last_loc()}));
+                }
+            }
+        }
+    }
+}
+
 fn main() {
     install_hook();
     let args: Vec<String> = std::env::args().collect();
@@ -3659,9 +3878,9 @@ fn main() {
     let mut st = Stats::new();
     let mut cw = CaseWriter::new(
         &dir,
-        "From Coq Require Import ZArith List. Import ListNotations. Open Scope Z_scope.\nFrom FV Require Import Lib.Cases C01.Model C01.ModelH C01.IterModel C01.CsModel.",
+        "From Coq Require Import ZArith List. Import ListNotations. Open Scope Z_scope.\nFrom FV Require Import Lib.Cases C01.Model C01.ModelH C01.IterModel C01.CsModel C01.Cmap4Model.",
         "Z * list Z * list Z * list Z",
-        "check_case_all3",
+        "check_case_all4",
         900,
     );
     correspondence(&mut rng, &mut cw, &mut st, thorough);
@@ -3681,6 +3900,7 @@ fn main() {
         }
     }
     subr_search(&mut cw, &mut st);
+    cmap4_stage(&mut rng, &mut cw, &mut st, thorough);
     let shards = cw.finish();
     st.v.insert("shards".into(), shards.into());
     st.v.insert("model_cases".into(), cw.len().into());
@@ -3688,6 +3908,7 @@ fn main() {
         ps_search(seed, thorough, &mut st);
         closure_search(seed, thorough, &mut st, &dir);
         device_search(seed, &mut st);
+        collect_features_stage(&mut st);
         fuzz(seed, thorough, &mut st, &dir);
     }
     st.write(
